@@ -489,13 +489,13 @@ def children(x, y, v):
   elif isinstance(x, t.Dict) and isinstance(y, t.Dict) and isinstance(v, dict) and x.schema is not None and y.schema is not None:
     for k, e in v.items():
       fx, fy = x.schema.get_field(k), y.schema.get_field(k)
-      if fx is not None and fy is not None: out.append((fx.value, fy.value, e))
+      if fx is not None and fy is not None and fx.key == fy.key: out.append((fx.value, fy.value, e))
   return out
 
 def localise(x, y, v, rel, into_candidates=True):
   """x rejects v, y accepts v, rel(x, y) holds: the innermost aligned sub-triple with the same shape."""
   t = T()
-  if not x.frozen and not y.frozen:
+  if not x.frozen:
     for cx, cy, cv in children(x, y, v):
       if rel(cx, cy) and acc_py(cy, cv) and not acc_py(cx, cv):
         return localise(cx, cy, cv, rel, into_candidates)
@@ -506,7 +506,7 @@ def localise(x, y, v, rel, into_candidates=True):
     elif isinstance(x, t.Union) and into_candidates:
       # the candidate that vouches for y refuses the value itself
       for c in x.candidates:
-        if not isinstance(c, t.Union) and rel(c, y) and c.is_compatible(y) and not acc_py(c, v):
+        if rel(c, y) and c.is_compatible(y) and not acc_py(c, v):
           return localise(c, y, v, rel, into_candidates)
   return x, y, v
 
@@ -580,42 +580,81 @@ def safe_value(v):
   try: return render_value(v)
   except Exception: return repr(v)
 
-def project(b, v):
-  """v restricted to the fields the base spec b declares (the fields the two schemas share)."""
+def project(b, v, r=None):
+  """v restricted to the fields the base b and the extended spec r share (declared by the same key spec in both schemas)."""
   t = T()
   if isinstance(b, t.Dict) and isinstance(v, dict) and b.schema is not None:
+    rs = r.schema if isinstance(r, t.Dict) else None
     out = {}
     for k, e in v.items():
       f = b.schema.get_field(k) if isinstance(k, str) else None
-      if f is not None: out[k] = project(f.value, e)
+      if f is None: continue
+      fr = rs.get_field(k) if rs is not None else None
+      if rs is not None and (fr is None or fr.key != f.key): continue
+      out[k] = project(f.value, e, fr.value if fr is not None else None)
     return out
   if isinstance(b, t.List) and isinstance(v, list):
-    return [project(b.element.value, e) for e in v]
+    return [project(b.element.value, e, r.element.value if isinstance(r, t.List) else None) for e in v]
   if isinstance(b, t.Tuple) and isinstance(v, tuple) and b.elements:
-    return tuple(project(b.elements[i if b.fixed_length and i < len(b.elements) else 0].value, e) for i, e in enumerate(v))
+    def el(s_, i):
+      if not isinstance(s_, t.Tuple) or not s_.elements: return None
+      return s_.elements[i if s_.fixed_length and i < len(s_.elements) else 0].value
+    return tuple(project(el(b, i), e, el(r, i)) for i, e in enumerate(v))
   return v
 
+def restrict_tree(rt, bt):
+  """The extended spec tree rt without the schema fields the base tree bt does not declare (recursively)."""
+  rt = copy.deepcopy(rt)
+  if rt[0] == 7 and bt[0] == 7 and rt[1] and bt[1]:
+    bkeys = {trlib.to_line(f[0]): f[1] for f in bt[1][0]}
+    fs = []
+    dropped = False
+    for kk, fsx in rt[1][0]:
+      kl = trlib.to_line(kk)
+      if kl in bkeys: fs.append([kk, restrict_tree(fsx, bkeys[kl])])
+      else: dropped = True
+    rt[1] = [fs]
+    n, d, fz = rt[-1]
+    if d and d[0][0] == 8:
+      keep = {tuple(f[0][1]) for f in fs if f[0][0] == 0}
+      has_dyn = any(f[0][0] == 1 for f in fs)
+      d = [[8, [[k, x] for k, x in d[0][1] if tuple(k) in keep or has_dyn]]]
+      if not fz: d = []
+    rt[-1] = [n, d, fz]
+  elif rt[0] == 5 and bt[0] == 5:
+    rt[1] = restrict_tree(rt[1], bt[1]); rt[-1] = [rt[-1][0], [] if not rt[-1][2] else rt[-1][1], rt[-1][2]]
+  elif rt[0] == 6 and bt[0] == 6 and rt[1] and bt[1]:
+    bfix = bool(bt[3]) and bt[3][0] == bt[2]
+    rt[1] = [restrict_tree(e, bt[1][i] if bfix and i < len(bt[1]) else bt[1][0]) for i, e in enumerate(rt[1])]
+    rt[-1] = [rt[-1][0], [] if not rt[-1][2] else rt[-1][1], rt[-1][2]]
+  return rt
+
 def shared_compat(b, c):
-  """b.is_compatible(c) for the fields they share: -> None, or the innermost (b', c') that is not compatible."""
+  """b.is_compatible(c) on the fields they share: -> None, or the innermost pair that is not compatible."""
   t = T()
-  if isinstance(b, t.Dict) and isinstance(c, t.Dict) and b.schema is not None and c.schema is not None and not b.frozen:
-    for k, f in b.schema.fields.items():
-      if k in c.schema.fields:
-        r = shared_compat(f.value, c.schema.fields[k].value)
-        if r is not None: return r
-    if (not b.is_noneable) and c.is_noneable: return (b, c)
-    return None
   if b.is_compatible(c):
     return None
+  try:
+    c2 = build(restrict_tree(render(c), render(b)))
+  except (Unrenderable, TypeError, ValueError, KeyError):
+    return None       # the restriction is not constructible: no claim
+  if b.is_compatible(c2):
+    return None
+  # innermost failing pair, for the signature
   if not b.frozen:
-    if isinstance(b, t.List) and isinstance(c, t.List):
-      r = shared_compat(b.element.value, c.element.value)
-      if r is not None: return r
-    if isinstance(b, t.Tuple) and isinstance(c, t.Tuple) and b.fixed_length and c.fixed_length and len(b.elements) == len(c.elements):
-      for eb, ec in zip(b.elements, c.elements):
-        r = shared_compat(eb.value, ec.value)
-        if r is not None: return r
-  return (b, c)
+    if isinstance(b, t.List) and isinstance(c2, t.List) and not b.element.value.is_compatible(c2.element.value):
+      return shared_compat(b.element.value, c2.element.value) or (b, c2)
+    if isinstance(b, t.Tuple) and isinstance(c2, t.Tuple) and b.elements and c2.elements and (
+        not b.fixed_length or (c2.fixed_length and len(b.elements) == len(c2.elements))):
+      for i, ec in enumerate(c2.elements):
+        eb = b.elements[i] if b.fixed_length else b.elements[0]
+        if not eb.value.is_compatible(ec.value):
+          return shared_compat(eb.value, ec.value) or (b, c2)
+    if isinstance(b, t.Dict) and isinstance(c2, t.Dict) and b.schema is not None and c2.schema is not None:
+      for k, f in b.schema.fields.items():
+        if k in c2.schema.fields and not f.value.is_compatible(c2.schema.fields[k].value):
+          return shared_compat(f.value, c2.schema.fields[k].value) or (b, c2)
+  return (b, c2)
 
 def classify_extend(kind_, c0, b, r, x=None, y=None, v=None):
   """kind_: narrows | base-compatible | default"""
@@ -648,13 +687,13 @@ def check_extend(c0, b, r, values, hit, case):
     if not ok: continue
     if isinstance(out, list) and out not in seen and total(out):
       seen.append(out)
-      pv_ = project(b, build_value(out))
+      pv_ = project(b, build_value(out), r)
       if not acc_py(b, pv_):
         x, y, lv = localise(b, r, pv_, lambda p, q: True, into_candidates=False)
         sig, what = classify_extend('narrows', c0, b, r, x, y, lv)
         hit(sig, '%s: %r is a value of the extended %r, base %r refuses it' % (what, lv, y, x), dict(case, value=out))
         continue
-    if out != vt and not acc_py(b, project(b, build_value(vt))):
+    if out != vt and not acc_py(b, project(b, build_value(vt), r)):
       hit(BY_DESIGN_EXTEND[0], '%s: extended %r maps %s to %s, base %r refuses %s' % (
           BY_DESIGN_EXTEND[1], r, show_value(vt), show_value(out) if isinstance(out, list) else out, b, show_value(vt)), dict(case, value=vt))
   bad = shared_compat(b, r)
@@ -675,15 +714,47 @@ def default_ok(s):
     return False
   return out == d
 
-def check_apply(spec, tree, vtree, partial, out, hit, case):
-  """apply on an accepted value: the result is accepted again and maps to itself."""
+def idem_ok(spec, v, partial):
+  """apply(v) succeeds -> apply(apply(v)) succeeds and equals it.  -> (ok, out, out2 or exception name)"""
+  try:
+    out = spec.apply(copy.deepcopy(v), allow_partial=partial)
+  except (TypeError, ValueError, KeyError):
+    return True, None, None
   try:
     out2 = spec.apply(copy.deepcopy(out), allow_partial=partial)
   except (TypeError, ValueError, KeyError) as e:
-    hit('C04/apply-idempotent/%s/result-refused' % kind(tree), 'apply returned %r for %r, which the spec then refuses (%s)' % (out, build_value(vtree), type(e).__name__), case)
-    return
-  if not (out2 == out) or safe_value(out2) != safe_value(out):
-    hit('C04/apply-idempotent/%s/result-moves' % kind(tree), 'apply maps %r to %r and that to %r' % (build_value(vtree), out, out2), case)
+    return False, out, type(e).__name__
+  return (out2 == out and safe_value(out2) == safe_value(out)), out, out2
+
+def localise_apply(spec, v, partial):
+  """The innermost (spec, value) on which apply is not idempotent."""
+  t = T()
+  if not spec.frozen:
+    subs = []
+    if isinstance(spec, t.List) and isinstance(v, list): subs = [(spec.element.value, e) for e in v]
+    elif isinstance(spec, t.Tuple) and isinstance(v, tuple) and spec.elements:
+      subs = [(spec.elements[i if spec.fixed_length and i < len(spec.elements) else 0].value, e) for i, e in enumerate(v)]
+    elif isinstance(spec, t.Dict) and isinstance(v, dict) and spec.schema is not None:
+      subs = [(spec.schema.get_field(k).value, e) for k, e in v.items() if isinstance(k, str) and spec.schema.get_field(k) is not None]
+    for cs, cv in subs:
+      if not idem_ok(cs, cv, partial)[0]:
+        return localise_apply(cs, cv, partial)
+  return spec, v
+
+def check_apply(spec, tree, vtree, partial, out, hit, case):
+  """apply on an accepted value: the result is accepted again and maps to itself."""
+  ok, o1, o2 = idem_ok(spec, build_value(vtree), partial)
+  if ok: return
+  ls, lv = localise_apply(spec, build_value(vtree), partial)
+  ok, o1, o2 = idem_ok(ls, lv, partial)
+  t = T()
+  if isinstance(ls, t.Union):
+    sig = 'C04/apply-idempotent/Union/result-dispatches-to-another-candidate'
+    what = 'Union.apply returns what the accepting candidate returns (e.g. its frozen value), and that value is dispatched to a different candidate when applied again'
+  else:
+    sig = 'C04/apply-idempotent/%s/%s' % (cname(ls), 'result-refused' if isinstance(o2, str) else 'result-moves')
+    what = 'apply is not idempotent'
+  hit(sig, '%s: %r maps %r to %r and that to %r' % (what, ls, lv, o1, o2), dict(case, local=dict(spec=safe_render(ls), value=safe_value(lv))))
 
 # ------------------------------------------------------------------------------------------------
 # pair generation: most pairs are related (one side derived from the other) so that compat / extend succeed often
@@ -762,14 +833,14 @@ class PairGen(SpecGen):
       elif t[1]:
         sz = r.choice([1, 2, 3]); t = [6, [copy.deepcopy(t[1][0]) for _ in range(sz)], sz, [sz], _m(t)]
     elif op == 'child':
-      if k == 5: t[1] = self.mutate(t[1], depth - 1)
+      if k == 5: t[1] = self.mutate(t[1], depth - 1) or t[1]
       elif k == 6 and t[1]:
-        i = r.randrange(len(t[1])); t[1][i] = self.mutate(t[1][i], depth - 1)
+        i = r.randrange(len(t[1])); t[1][i] = self.mutate(t[1][i], depth - 1) or t[1][i]
       elif k == 7 and t[1] and t[1][0]:
-        i = r.randrange(len(t[1][0])); t[1][0][i][1] = self.mutate(t[1][0][i][1], depth - 1)
+        i = r.randrange(len(t[1][0])); t[1][0][i][1] = self.mutate(t[1][0][i][1], depth - 1) or t[1][0][i][1]
       elif k == 9:
         i = r.randrange(len(t[1])); c = self.mutate(t[1][i], depth - 1)
-        if c[0] == t[1][i][0]: t[1][i] = c
+        if c is not None and c[0] == t[1][i][0]: t[1][i] = c
       if k in (5, 6, 7) and not (k == 7 and t[1]): t[-1] = [n, [], 0]
     elif op == 'addkey':
       if t[1]:
@@ -881,6 +952,10 @@ CORPUS_PAIRS = [
     ([5, _I, 0, [], [0, [], 0]], [5, [1, [], [], [0, [V(1)], 1]], 0, [], [0, [], 0]]),                          # List(Int) vs List(frozen Int)
 ]
 
+CORPUS_APPLY = [
+    dict(spec=[9, [[4, [[3, 1], [5, [97]]], [0, [[2, 1]], 1]], [0, [0, [[2, 0]], 1]]], [0, [], 0]], value=[4, 64]),   # Union idempotence
+]
+
 def oracle_case(case, hit):
   """Evaluates the property on one stored case (used for witnesses, replays and the corpus)."""
   op = case['op']
@@ -944,15 +1019,16 @@ def run(ctx):
   # ---- spec pool -------------------------------------------------------------------------------
   flats = flat_specs()
   ctx.extra['flat_specs_on_grid'] = len(flats)
-  nspec = ctx.scale(140, 1500)
+  nspec = ctx.scale(450, 2500)
   pool = [gen.spec(rng.choice([0, 1, 1, 2, 2, 3])) for _ in range(nspec)]
   pool += rng.sample(flats, ctx.scale(60, len(flats))) if not ctx.thorough else flats
   napply = 0
+  pool = [w['spec'] for w in CORPUS_APPLY] + pool
   for t in pool:
     ctx.hist('spec_kind', kind(t)); ctx.hist('spec_mods', 'noneable=%d default=%d frozen=%d' % (_m(t)[0], int(bool(_m(t)[1])), _m(t)[2]))
     s = build(t)
     before = copy.deepcopy(s)
-    vals = values_for(t, rng, ctx.scale(24, 40))
+    vals = [w['value'] for w in CORPUS_APPLY if w['spec'] == t] + values_for(t, rng, ctx.scale(24, 40))
     for vt in vals:
       for partial in ((0, 1) if rng.random() < 0.25 else (0,)):
         out_tree, out, ok = impl_apply(s, vt, bool(partial))
@@ -973,7 +1049,7 @@ def run(ctx):
   # ---- pairs --------------------------------------------------------------------------------------
   pairs = [(canon(a), canon(b)) for a, b in CORPUS_PAIRS]
   assert all(a is not None and b is not None for a, b in pairs), 'corpus pair not constructible'
-  for _ in range(ctx.scale(330, 6000)):
+  for _ in range(ctx.scale(1400, 12000)):
     pairs.append(gen.pair(rng.choice([0, 1, 1, 2, 2, 3])))
   if ctx.thorough:
     sweep = [(a, b) for a in flats for b in flats]
